@@ -44,6 +44,7 @@ type progGen struct {
 	aggregate bool     // aggregate calls allowed at the top of an expression
 	maxDepth  int
 	safeNames bool // only plain identifiers (for evaluator-oriented cases)
+	misuse    int  // per-mille probability of planting a documented misuse at an identifier / call site
 	evalMode  bool // programs the reference evaluators can run: tables T U V, columns a b c k s, fresh new names
 	fresh     *int
 }
@@ -57,6 +58,10 @@ var numberLits = []string{"0", "1", "2", "42", "007", "3.14", ".5", "1.", "1e3",
 func pick[T any](xs []T) T { return xs[rng.Intn(len(xs))] }
 
 func (g *progGen) ident() *enode {
+	if g.misuse > 0 && rng.Intn(1000) < g.misuse {
+		// $left / $right outside a join condition, in any part of a name
+		return &enode{kind: "qual", text: pick([]string{"$left.a", "a.$left", "x.y.$right", "$right", "$right.b.c", "t.$right.c", "`q`.$left"})}
+	}
 	if g.evalMode {
 		switch r := rng.Intn(12); {
 		case r < 9:
@@ -114,6 +119,21 @@ var builtins = []struct {
 
 func (g *progGen) call(depth int) *enode {
 	n := &enode{kind: "call"}
+	if g.misuse > 0 && rng.Intn(1000) < 3*g.misuse {
+		// a built-in with the wrong number of arguments
+		b := pick(builtins)
+		n.text = b.name
+		k := b.n + 1 + rng.Intn(2)
+		if b.n < 0 {
+			k = 0
+		} else if b.n > 0 && rng.Intn(2) == 0 {
+			k = b.n - 1
+		}
+		for i := 0; i < k; i++ {
+			n.kids = append(n.kids, g.expr(depth-1))
+		}
+		return n
+	}
 	switch r := rng.Intn(10); {
 	case r < 6:
 		b := pick(builtins)
@@ -575,7 +595,11 @@ func (g *progGen) constExprToks(depth int) []string {
 
 // program: statements = lets, query, maybe lets after, with empty statements sprinkled in.
 func genProgramToks(params []string, depth int) []string {
-	g := &progGen{cols: plainNames[:6+rng.Intn(6)], maxDepth: depth}
+	return genProgramToksMisuse(params, depth, 0)
+}
+
+func genProgramToksMisuse(params []string, depth int, misuse int) []string {
+	g := &progGen{cols: plainNames[:6+rng.Intn(6)], maxDepth: depth, misuse: misuse}
 	g.bound = append(g.bound, params...)
 	var out []string
 	nlets := 0
@@ -797,6 +821,17 @@ func genCompileCases(tier string, emit func(op string, fields ...string)) {
 		toks := genProgramToks(nil, 1+rng.Intn(3))
 		toks = corruptTokens(toks)
 		emit("COMPILE", hexs(layout(toks, false)), "-")
+	}
+	// documented misuses planted at random positions and depths (C13), and the bad-let forms
+	for i := 0; i < n/3; i++ {
+		emit("COMPILE", hexs(layout(genProgramToksMisuse(nil, 1+rng.Intn(4), 15+rng.Intn(40)), false)), "-")
+	}
+	for _, s := range []string{
+		"T | where a.$left == 1", "T | project x = a.b.$right", "T | extend y = strcat(tolower(t.$left), 'x')", "T | join (U | where u.$left == 1) on k",
+		"T | where `$left`.a == 1", "T | where a.`$left` == 1", "T | join (U) on a.$left == $right.b", "T | sort by $right.a", "T | take $left",
+		"T | summarize count() by $left.k", "T | top 3 by x.$right", "let v = a.$left; T", "T | where f(g(h($right.x)))",
+	} {
+		emit("COMPILE", hexs(s), "-")
 	}
 	// two compilations with the same options value: lets of the first must not be visible in the second
 	seqPairs := [][2]string{
